@@ -66,6 +66,8 @@ def gen_program(rnd, prof):
         if rnd.random() < prof['p_watch']:
             w = 'w%d' % len(p.watch)
             p.watch[w] = None if rnd.random() < 0.7 else 0
+            if rnd.random() < prof.get('p_watch_link', 0.0):
+                p.watch_link.add(w)
             t['watch'] = w
         cand = [x for x in names if x not in deps and p.targets[x].get('flag') is not None]
         if cand and rnd.random() < prof['p_opt']:
@@ -223,7 +225,7 @@ def gen_op(rnd, p, prof, last_build=None):
         top = rnd.choice(ups + [n])
         j = 1 if prof['jmax'] <= 1 else rnd.choice([1, prof['jmax']])
         b = ('build', [top], dict(j=j, keep=rnd.random() < prof['p_keep'], forced=False))
-        return [('flag', n, 1), b, b, ('flag', n, 0), b, b]
+        return [b, ('flag', n, 1), b, b, ('flag', n, 0), b, b]
     if op == 'uwrite':
         return ('uwrite', rnd.choice(tnames), rnd.choice(['inplace', 'replace']))
     if op == 'urm':
